@@ -523,15 +523,18 @@ def gen_local(r, n):
     pivot (the leaf left of it becomes full) and delete upwards from the pivot (its leaf underflows while the
     right neighbour is minimal): exercises borrow-left / borrow-right / guarded merges at leaf and branch level"""
     cap = r.pick([4, 5, 5, 6, 6, 7, 8, 9, 11])
-    yield f"flavour {r.pick(['int', 'int', 'str', 'custom'])}"
+    yield f"flavour {r.pick(['int', 'int', 'float', 'str', 'custom'])}"
     m = r.pick([20, 30, 60, 120])
+    # the key range straddles zero in most cases: 0 / 0.0 / False-like keys must be usable as separators
+    # (and as the key a branch rotation moves up) like any other key
+    off = 10 * r.below(m) if r.chance(65) else 0
     if r.chance(50):
-        yield f"P fromsorted {cap} " + ",".join(f"{10 * i}:{i}" for i in range(m))
+        yield f"P fromsorted {cap} " + ",".join(f"{10 * i - off}:{i}" for i in range(m))
     else:
         yield f"P new {cap}"
-        for i in range(m): yield f"P set {10 * i} {i}"
+        for i in range(m): yield f"P set {10 * i - off} {i}"
     yield "P dump"
-    live = set(10 * i for i in range(m))
+    live = set(10 * i - off for i in range(m))
     ops = 0
     while ops < n and live:
         pivot = r.pick(sorted(live))
@@ -539,7 +542,7 @@ def gen_local(r, n):
         if mode == 0:       # fill below the pivot, then delete upwards from it
             for j in range(1, 1 + r.below(cap + 1)):
                 k = pivot - j
-                if k not in live and k >= 0:
+                if k not in live and k >= -off:
                     live.add(k); ops += 1; yield f"P set {k} {j}"
             up = [k for k in sorted(live) if k >= pivot][: 1 + r.below(cap)]
             for k in up:
@@ -630,6 +633,25 @@ def main():
                     w = l.split(); w[2] = str(int(w[2]) + cap - 1); ex.run_line(" ".join(w))
                     ex.run_line("P dump")
                 if caseno >= cases: break
+            if caseno >= cases: break
+        # second family: a three-level tree whose key range straddles zero (ascending fill: every branch at its
+        # minimum except the last), then every sequence of `depth` deletions over the keys around zero —
+        # the histories in which branches underflow, borrow from a branch sibling or merge
+        import itertools
+        depth = min(n + 1, 5)
+        for cap, lo_k, hi_k in ((4, -14, 12), (5, -22, 16), (6, -30, 24)):
+            window = list(range(-6, 2)) if cap == 4 else list(range(-8, 2))
+            for hist in itertools.product(window, repeat=depth):
+                if len(set(hist)) < depth: continue
+                if caseno >= cases: break
+                caseno += 1
+                ex.run_line(f"case {caseno}"); ex.run_line(f"flavour {('int', 'float')[caseno % 2]}"); ex.run_line(f"P new {cap}")
+                for k in range(lo_k, hi_k): ex.run_line(f"P set {k} {k % 5 + 1}")
+                ex.run_line("P dump")
+                for k in hist:
+                    ex.run_line(f"P del {k}"); ex.run_line("P dump")
+                for k in range(-3, 3): ex.run_line(f"P in {k}")
+                ex.run_line("P items _ _")
             if caseno >= cases: break
         ex.close(); return
     for _ in range(cases):
